@@ -399,7 +399,7 @@ Qed.
    dependency on the declaring file *)
 Definition deps_cover (g : graph) : Prop :=
   (forall f s, In s (f_uses (getf g f)) -> fst s <> f -> In (fst s) (f_deps (getf g f))) /\
-  (forall e s, In s (f_exports (getf g e)) -> fst s <> e -> In (fst s) (f_deps (getf g e))).
+  (forall e s, In s (entry_exports g e) -> fst s <> e -> In (fst s) (f_deps (getf g e))).
 
 Lemma find_chunk_spec bs : forall l i0 k, find_chunk bs l i0 = Some k ->
   (i0 <= k)%nat /\ (k - i0 < length l)%nat /\ bs = c_bits (nth (k - i0) l dchunk).
@@ -416,7 +416,7 @@ Lemma chunk_of_sym_spec g a s oi : chunk_of_sym g a s = Some oi ->
   file_bits a (fst s) = c_bits (nth oi (a_chunks a) dchunk).
 Proof.
   unfold chunk_of_sym, chunk_of_file. intro H.
-  destruct (snd s <? _)%nat; [|discriminate].
+  destruct (memn (snd s) (declared_live (getf g (fst s)))); [|discriminate].
   destruct (is_live a (fst s)) eqn:L; [|discriminate].
   apply find_chunk_spec in H as [_ [H2 H3]]. rewrite Nat.sub_0_r in *. auto.
 Qed.
@@ -913,14 +913,14 @@ Proof.
   unfold deps_coverb. intro H. rewrite forallb_forall in H.
   assert (K : forall f, (f < nfiles g)%nat ->
      (forall s, In s (f_uses (getf g f)) -> fst s <> f -> In (fst s) (f_deps (getf g f))) /\
-     (forall s, In s (f_exports (getf g f)) -> fst s <> f -> In (fst s) (f_deps (getf g f)))).
+     (forall s, In s (entry_exports g f) -> fst s <> f -> In (fst s) (f_deps (getf g f)))).
   { intros f Hf. specialize (H f (proj2 (in_seq _ _ _) (conj (Nat.le_0_l f) Hf))).
     apply andb_true_iff in H as [H1 H2]. rewrite forallb_forall in H1, H2.
     split; intros s Hs Hne; [specialize (H1 s Hs) | specialize (H2 s Hs)].
     - apply orb_true_iff in H1 as [H1|H1]; [apply Nat.eqb_eq in H1; contradiction | apply memn_In; exact H1].
     - apply orb_true_iff in H2 as [H2|H2]; [apply Nat.eqb_eq in H2; contradiction | apply memn_In; exact H2]. }
   split; intros f s Hs Hne; (destruct (Nat.ltb_spec f (nfiles g)) as [Hf|Hf];
-    [destruct (K f Hf) as [K1 K2]; auto | rewrite getf_out in Hs by exact Hf; destruct Hs]).
+    [destruct (K f Hf) as [K1 K2]; auto | unfold entry_exports in Hs; rewrite getf_out in Hs by exact Hf; destruct Hs]).
 Qed.
 
 (* chunk keys: two bit sets for the same number of entry points are the same
